@@ -101,6 +101,7 @@ func (h *H[T]) C11(rc *runCtx) *Violation {
 	if class == "long" {
 		contG, contM = 1<<20, 1<<20
 	}
+	useMask := drawMask(prog, numUse)
 	shareMode := prog.Draw(3) // 0 one shared pointer, 1 per-task copies by value, 2 mixed per cycle
 	var progs [][]cycle
 	estSteps := 0
@@ -136,7 +137,7 @@ func (h *H[T]) C11(rc *runCtx) *Violation {
 					prog.End()
 					break
 				}
-				cy.uses = append(cy.uses, drawUse(prog))
+				cy.uses = append(cy.uses, drawUse(prog, useMask))
 				prog.End()
 			}
 			cy.inner = prog.Draw(3) == 2
